@@ -37,13 +37,14 @@ ASSUMPTIONS = [
     "no count (filter t) or as 1 (ngettext, npgettext, tag), as the code documents",
     "\\w is modelled as ASCII [A-Za-z0-9_] and \\s as the ASCII/Latin-1 whitespace set; the theorems hold for every \\w that excludes % ( ) ; "
     "generators stay ASCII",
+    "the tag's placeholder name class (\\w before, [^()%] after fix c47e079) is read from TranslateNode.re_vars of the code under test and passed to the model, whose theorems hold for every class excluding % ( )",
     "autoescape is off in the model streams; an oracle-only stream checks the autoescape variant (message and values HTML-escaped)",
     "conversions %r / %a of CPython formatting are not modelled (they never occur after the fix: every stray % is escaped first)",
 ]
 MANIFEST = {
     "technique": "Lean 4 proof (well-founded induction over the message text: escaping + CPython %-formatting = placeholder substitution) "
     "+ differential correspondence through rendered templates and against CPython's % operator",
-    "text": "Theorems format_is_substitution, tag_format_is_expansion(_trimmed), plural_choice_* and the end-to-end t/ngettext/tag corollaries hold for "
+    "text": "Theorems format_is_substitution, tag_format_is_expansion_partial, tag_format_trimmed_partial (trimming commutes with the %/placeholder encoding), plural_choice_* and the end-to-end t/ngettext/tag corollaries hold for "
     "every message text, every variable assignment and every \\w class that excludes %, ( and ); the model is tied to translate.py / "
     "translate_tag.py by exhaustive small-message and random differential runs through the five filters and the tag, and the "
     "CPython %-formatting model by a differential run against the real operator.",
